@@ -387,28 +387,34 @@ def c_gm_solve(ctx, it, cfg):
         calls.append((args, kwargs))
         return None
     it.summaries[key] = solve_summary
-    tcur = real(ctx, 'tcur')
-    X = Tok('Xcur')
-    m = new_obj(it, GM, 'GenericModel', couplingModels=[])
-    m.fields['getCurrentX'] = lambda: (tcur, X)
-    sim = real(ctx, 'simTime')
-    mn, mxf = real(ctx, 'minDtFrac'), real(ctx, 'maxDtFrac')
+    m = it.get(GM, 'GenericModel')()             # the real constructor: every field, also one added later, has the value the real code gives it
     ST = it.get(SOLV, 'SolverType')
-    m.solve(sim, ST.attrs[cfg['st']], False, 10, mn, mxf)
-    ctx.prove('solver-started-once', len(calls) == 1)
-    (slv, t0, X0, tf, verbose, vIt), _ = calls[0]
-    ctx.prove('starts-at-model-time', eq(t0, tcur))
-    ctx.prove('ends-at-model-time-plus-duration', eq(tf, tcur + sim))
-    ctx.prove('state-is-the-models-state', X0 is X)
-    ctx.prove('step-fractions-forwarded', and_(eq(slv.fields['dtmin'], mn), eq(slv.fields['dtmax'], mxf)))
-    want = it.get(ITER, 'RK4Iterator' if cfg['st'] == 'RK4' else 'ExplicitEulerIterator')
-    ctx.prove('iterator-selected', slv.fields['iterator'] is want)
-    f = slv.fields
-    ok = all(isinstance(f[k], BoundMethod) and f[k].obj is m for k in ('preProcess', 'postProcess', '_f', '_correctdXdt', '_getDt', '_flattenX', '_unflattenX'))
-    names = dict(preProcess='preProcess', postProcess='postProcess', _f='getdXdt', _correctdXdt='correctdXdt', _getDt='getDt', _flattenX='flattenX', _unflattenX='unflattenX')
-    ok = ok and all(f[k].func.name == v for k, v in names.items())
-    ctx.prove('model-callbacks-wired', ok)
-    ctx.prove('time-info', and_(eq(m.fields['initialTime'], tcur), eq(m.fields['finalTime'], tcur + sim), eq(m.fields['deltaTime'], sim)))
+    cur = {}
+    m.fields['getCurrentX'] = lambda: (cur['t'], cur['X'])
+    other = 'EXPLICITEULER' if cfg['st'] == 'RK4' else 'RK4'
+    # two consecutive calls on the same model with different durations, fractions and (second call) the other iterator:
+    # every call must use exactly what IT was given
+    for k, st in enumerate((cfg['st'], other)):
+        cur['t'], cur['X'] = real(ctx, 'tcur%d' % k), Tok('Xcur%d' % k)
+        sim = real(ctx, 'simTime%d' % k)
+        mn, mxf = real(ctx, 'minDtFrac%d' % k), real(ctx, 'maxDtFrac%d' % k)
+        del calls[:]
+        m.solve(sim, ST.attrs[st], False, 10, mn, mxf)
+        pre = 'call%d/' % (k + 1)
+        ctx.prove(pre + 'solver-started-once', len(calls) == 1)
+        (slv, t0, X0, tf, verbose, vIt), _ = calls[0]
+        ctx.prove(pre + 'starts-at-model-time', eq(t0, cur['t']))
+        ctx.prove(pre + 'ends-at-model-time-plus-duration', eq(tf, cur['t'] + sim))
+        ctx.prove(pre + 'state-is-the-models-state', X0 is cur['X'])
+        ctx.prove(pre + 'step-fractions-forwarded', and_(eq(slv.fields['dtmin'], mn), eq(slv.fields['dtmax'], mxf)))
+        want = it.get(ITER, 'RK4Iterator' if st == 'RK4' else 'ExplicitEulerIterator')
+        ctx.prove(pre + 'iterator-selected', slv.fields['iterator'] is want)
+        f = slv.fields
+        ok = all(isinstance(f[kk], BoundMethod) and f[kk].obj is m for kk in ('preProcess', 'postProcess', '_f', '_correctdXdt', '_getDt', '_flattenX', '_unflattenX'))
+        names = dict(preProcess='preProcess', postProcess='postProcess', _f='getdXdt', _correctdXdt='correctdXdt', _getDt='getDt', _flattenX='flattenX', _unflattenX='unflattenX')
+        ok = ok and all(f[kk].func.name == v for kk, v in names.items())
+        ctx.prove(pre + 'model-callbacks-wired', ok)
+        ctx.prove(pre + 'time-info', and_(eq(m.fields['initialTime'], cur['t']), eq(m.fields['finalTime'], cur['t'] + sim), eq(m.fields['deltaTime'], sim)))
 
 
 # ---------------------------------------------------------------------------------------------------
